@@ -554,6 +554,50 @@ def build(run):
         return proved("exec", vcs=n, sample=f"{n} base forms / integrals: eval(repr) and pickle round trips equal; equal integrals have one hash, repr and signature")
     run.add("roundtrip/base-forms-and-integrals", baseform_roundtrip, kind="values")
 
+    # pickles travel between PROCESSES (other hash seed): an object hashed and pickled in one process equals, and hashes like, the same object built in another
+    def pickle_across_processes():
+        import base64
+        import os
+        import subprocess
+        import sys
+        src = ("import warnings; warnings.simplefilter('ignore')\n"
+               "import ufl, ufv.opq\n"
+               "from ufv import sigforms as S\n"
+               "def build():\n"
+               "    S.set_counters({k: 300 for k in S.COUNTER_FAMILIES})\n"
+               "    m = S.new_mesh()\n"
+               "    V = ufl.FunctionSpace(m, S.L(ufl.triangle, 1)); W = ufl.FunctionSpace(m, S.L(ufl.triangle, 2, (2,)))\n"
+               "    f, g, w = ufl.Coefficient(V), ufl.Coefficient(V), ufl.Coefficient(W)\n"
+               "    v = ufl.TestFunction(V)\n"
+               "    i = ufl.Index(7)\n"
+               "    dx = ufl.Measure('dx', domain=m)\n"
+               "    return {'f*f + 1': f * f + 1, 'sin(f)*g': ufl.sin(f) * g, 'w[i]*w[i]': w[i] * w[i], 'grad(f)': ufl.grad(f), 'conditional': ufl.conditional(ufl.lt(f, g), f, 2.0),\n"
+               "            'form': f * g * v * dx + f * v * ufl.Measure('ds', domain=m)(1), 'integral': (f * v * dx).integrals()[0], 'matrix': ufl.Matrix(V, V, count=301),\n"
+               "            'cofunction': ufl.Cofunction(V.dual(), count=302), 'zero base form': ufl.ZeroBaseForm((v,)), 'coefficient': f, 'literal': ufl.as_ufl(2.5) * f}\n")
+        dump = src + ("import pickle, base64, sys\nobjs = build()\nfor o in objs.values():\n    hash(o); repr(o)\n"
+                      "    getattr(o, 'signature', lambda: None)()\nsys.stdout.write(base64.b64encode(pickle.dumps(objs)).decode())\n")
+        ns_ = {}
+        exec(src, ns_)
+        mine = ns_["build"]()
+        n = 0
+        for seed in ("123", "4567"):
+            r = subprocess.run([sys.executable, "-c", dump], env=dict(os.environ, PYTHONHASHSEED=seed), capture_output=True, text=True, timeout=300)
+            if r.returncode != 0:
+                return undecided(f"child process failed: {r.stderr[-300:]}")
+            theirs = pickle.loads(base64.b64decode(r.stdout.strip().splitlines()[-1]))
+            for nm_, o in mine.items():
+                p_ = theirs[nm_]
+                n += 1
+                same = (p_.equals(o) and o.equals(p_)) if hasattr(o, "equals") else (bool(p_ == o) and bool(o == p_))
+                if repr(p_) != repr(o):
+                    return undecided(f"{nm_}: the child process built a different object")
+                if not same or hash(p_) != hash(o) or len({p_, o}) != 1:
+                    return violated(f"{nm_}: hashed and pickled in a process with PYTHONHASHSEED={seed}, un-pickled here: same repr as the object built here, but "
+                                    f"== is {same}, equal hashes: {hash(p_) == hash(o)}, a set of the two has {len({p_, o})} member(s)",
+                                    replay={"object": nm_, "seed": seed}, reproduced=True, backend="subprocess")
+        return bounded_ok(n, "12 objects x 2 child processes with other hash seeds", sample="an un-pickled object equals and hashes like its twin built in the receiving process")
+    run.add("roundtrip/pickle-across-processes", pickle_across_processes, kind="bounded")
+
     # literals: the printed text of a real / complex literal must denote the same double (shortest round-trip text or more digits)
     def literal_roundtrip():
         import math
